@@ -14,6 +14,7 @@ let () = each_line (fun l ->
   let (c, o) = split_bar l in
   let t = toks_of_line c in
   let enc = word t in let n = num t in
+  (match peek t with Some "SALT" -> ignore (word t); ignore (num t) | _ -> ());
   let ops = times n (fun () ->
     expect t ";";
     let op = word t in
